@@ -268,7 +268,7 @@ def item(e, alias=""):
 
 # ---------------------------------------------------------------- random data
 
-WORDS = ["a", "b", "ab", "B", "x", "y", "apple", "Apple", "ant", "bee", "10", "9", "z z", ""]
+WORDS = ["a", "b", "ab", "B", "x", "y", "apple", "Apple", "ant", "bee", "10", "9", "z z", "", "1", "1.0", "007", "-2"]
 
 
 def gen_table(rnd, ncols=None, nrows=None, kinds=None, nullable=False, names=None):
